@@ -210,6 +210,89 @@ theorem ensureItems_grow (ns : List String) : ∀ (st : St), Grow st (ensureItem
 theorem virtLink_refs (l : Link) : (virtLink l).segRefs = [l.frm, l.to] ∧ (virtLink l).itemRefs = [] := by
   simp [virtLink, Rec.segRefs, Rec.itemRefs, fld]
 
+theorem linkOf_fields (q : Rec) (k : Link) (h : q.linkOf = some k) : q.rt = .L ∧ k.frm = fld q 0 ∧ k.to = fld q 2 := by
+  unfold Rec.linkOf at h
+  split at h
+  · rename_i hrt
+    split at h
+    · injection h with h; subst h; exact ⟨hrt, rfl, rfl⟩
+    · cases h
+  · cases h
+
+theorem fld_set4 (q : Rec) (v : String) (i : Nat) (hi : i < 4) : fld ({ q with fields := q.fields.set 4 v } : Rec) i = fld q i := by
+  unfold fld
+  simp only [List.getD_eq_getElem?_getD]
+  rw [List.getElem?_set_ne (by omega)]
+
+theorem adoptOverlap_refs (s : Link) (q : Rec) :
+    (adoptOverlap s q).rt = q.rt ∧ (adoptOverlap s q).segRefs = q.segRefs ∧ (adoptOverlap s q).itemRefs = q.itemRefs := by
+  unfold adoptOverlap
+  split
+  · rename_i k hk
+    obtain ⟨hrt, _, _⟩ := linkOf_fields q k hk
+    split
+    · refine ⟨rfl, ?_, ?_⟩
+      · unfold Rec.segRefs
+        simp only [hrt]
+        rw [show ∀ v, fld ({ rt := RT.L, fields := q.fields.set 4 v, virt := q.virt } : Rec) 0 = fld q 0 from
+              fun v => by have := fld_set4 q v 0 (by decide); rw [hrt] at this; simpa [hrt] using this,
+            show ∀ v, fld ({ rt := RT.L, fields := q.fields.set 4 v, virt := q.virt } : Rec) 2 = fld q 2 from
+              fun v => by have := fld_set4 q v 2 (by decide); rw [hrt] at this; simpa [hrt] using this]
+      · unfold Rec.itemRefs
+        simp only [hrt]
+    · exact ⟨rfl, rfl, rfl⟩
+  · exact ⟨rfl, rfl, rfl⟩
+
+/-- a stored link that satisfies a step joins the two segments of the step -/
+theorem fits_segRefs (l : Link) (q : Rec) (h : fits l q = true) : q.rt = .L ∧ ∀ n ∈ q.segRefs, n = l.frm ∨ n = l.to := by
+  unfold fits at h
+  split at h
+  · rename_i k hk
+    obtain ⟨hrt, hf, ht⟩ := linkOf_fields q k hk
+    refine ⟨hrt, ?_⟩
+    intro n hn
+    unfold Rec.segRefs at hn
+    simp only [hrt, List.mem_cons, List.not_mem_nil, or_false] at hn
+    unfold Link.compatible Link.compatDirect Link.compatCompl at h
+    simp only [Bool.or_eq_true, Bool.and_eq_true, beq_iff_eq] at h
+    rcases h with ⟨⟨⟨⟨h1, _⟩, h3⟩, _⟩, _⟩ | ⟨⟨⟨⟨h1, _⟩, h3⟩, _⟩, _⟩
+    · rcases hn with rfl | rfl
+      · left; rw [← hf, h1]
+      · right; rw [← ht, h3]
+    · rcases hn with rfl | rfl
+      · right; rw [← hf, h3]
+      · left; rw [← ht, h1]
+  · cases h
+
+/-- a placeholder link adopting the overlap a step states: everything stays available and the record stays closed -/
+theorem grow_adopt (st : St) (l : Link) (i : Nat) (hfound : st.lines.findIdx? (fits l) = some i)
+    (hs : ∀ n ∈ [l.frm, l.to], SegOK st n) :
+    Grow st { st with lines := st.lines.set i (adoptOverlap l (st.lines.getD i default)) } := by
+  obtain ⟨hi, hp⟩ := findIdx_some_lt _ _ _ hfound
+  have hfit : fits l (st.lines.getD i default) = true := by simpa using hp
+  obtain ⟨hrt, hrefs⟩ := fits_segRefs l _ hfit
+  obtain ⟨art, aseg, aitem⟩ := adoptOverlap_refs l (st.lines.getD i default)
+  have hext : Ext st { st with lines := st.lines.set i (adoptOverlap l (st.lines.getD i default)) } := by
+    apply ext_set st i _ hi (Or.inr (C09.adoptOverlap_name l _).symm)
+    intro hS; rw [hrt] at hS; cases hS
+  refine ⟨hext, ?_⟩
+  intro x hx
+  rcases List.mem_or_eq_of_mem_set hx with h | h
+  · exact Or.inl h
+  · right
+    subst h
+    refine ⟨?_, ?_⟩
+    · intro n hn
+      rw [aseg] at hn
+      apply hext.1 n
+      rcases hrefs n hn with rfl | rfl
+      · exact hs _ (by simp)
+      · exact hs _ (by simp)
+    · intro n hn
+      rw [aitem] at hn
+      have : (st.lines.getD i default).itemRefs = [] := by unfold Rec.itemRefs; rw [hrt]
+      rw [this] at hn; cases hn
+
 theorem ensureLinks_grow (ls : List Link) : ∀ (st st' : St), ensureLinks st ls = .ok st' → Grow st st' := by
   induction ls with
   | nil => intro st st' he; simp [ensureLinks] at he; subst he; exact Grow.refl _
@@ -222,7 +305,8 @@ theorem ensureLinks_grow (ls : List Link) : ∀ (st st' : St), ensureLinks st ls
       simp only [h1, Except.bind] at he
       obtain ⟨g1, s1⟩ := ensureSegs_grow _ st st1 h1
       split at he
-      · exact g1.trans (ih st1 st' he)
+      · rename_i i hfound
+        exact g1.trans ((grow_adopt st1 l i hfound s1).trans (ih _ st' he))
       · have hc : RecClosed { st1 with lines := st1.lines ++ [virtLink l] } (virtLink l) := by
           refine ⟨?_, by rw [(virtLink_refs l).2]; simp⟩
           intro n hn
@@ -564,9 +648,9 @@ theorem mem_kept (st : St) (dead : List Nat) (q : Rec) :
 
 /-- **removal keeps the reference graph closed**: whatever refers to a removed line is removed with it
     (or, for a gap listed in a set, the mention is dropped) -/
-theorem rmIdx_closed (st : St) (seed : List Nat) (hc : Closed st) : Closed (rmIdx st seed) := by
+theorem rmCore_closed (st : St) (seed : List Nat) (hc : Closed st) : Closed (rmCore st seed) := by
   intro q' hq'
-  unfold rmIdx at hq'
+  unfold rmCore at hq'
   simp only [List.mem_map] at hq'
   obtain ⟨q, hq, rfl⟩ := hq'
   have hq2 := (mem_kept st (cascade st seed) q).mp (by simpa [List.mem_map] using hq)
@@ -578,9 +662,9 @@ theorem rmIdx_closed (st : St) (seed : List Nat) (hc : Closed st) : Closed (rmId
   obtain ⟨⟨hseg, hitem⟩, _⟩ := hdep
   -- a kept line whose index is live
   have keep : ∀ (t : Rec) (k : Nat), st.lines[k]? = some t → k ∉ cascade st seed →
-      dropItems ((cascade st seed).filterMap (fun j => (st.lines[j]?).bind Rec.name)) t ∈ (rmIdx st seed).lines := by
+      dropItems ((cascade st seed).filterMap (fun j => (st.lines[j]?).bind Rec.name)) t ∈ (rmCore st seed).lines := by
     intro t k hk hlk
-    unfold rmIdx
+    unfold rmCore
     simp only [List.mem_map]
     refine ⟨t, ?_, rfl⟩
     have hkl : k < st.lines.length := by
@@ -633,6 +717,75 @@ theorem rmIdx_closed (st : St) (seed : List Nat) (hc : Closed st) : Closed (rmId
           simp [this, htn]
       rw [hasName_iff']
       exact ⟨_, keep _ k hks hlk, by rw [dropItems_name]; exact htn⟩
+
+theorem resetPlaceholder_refs (lines : List Rec) (p : Rec × Nat) :
+    (resetPlaceholder lines p).rt = p.1.rt ∧ (resetPlaceholder lines p).segRefs = p.1.segRefs ∧
+    (resetPlaceholder lines p).itemRefs = p.1.itemRefs := by
+  unfold resetPlaceholder
+  split
+  · rename_i h
+    simp only [Bool.and_eq_true, beq_iff_eq] at h
+    have hrt : p.1.rt = .L := h.1.1.2
+    refine ⟨rfl, ?_, ?_⟩
+    · unfold Rec.segRefs
+      simp only [hrt]
+      rw [show ∀ v, fld ({ rt := RT.L, fields := p.1.fields.set 4 v, virt := p.1.virt } : Rec) 0 = fld p.1 0 from
+            fun v => by have := fld_set4 p.1 v 0 (by decide); rw [hrt] at this; simpa [hrt] using this,
+          show ∀ v, fld ({ rt := RT.L, fields := p.1.fields.set 4 v, virt := p.1.virt } : Rec) 2 = fld p.1 2 from
+            fun v => by have := fld_set4 p.1 v 2 (by decide); rw [hrt] at this; simpa [hrt] using this]
+    · unfold Rec.itemRefs
+      simp only [hrt]
+  · exact ⟨rfl, rfl, rfl⟩
+
+theorem mem_zipIdx_recmap (ls : List Rec) (f : Rec × Nat → Rec) (q' : Rec) :
+    q' ∈ ls.zipIdx.map f ↔ ∃ q i, ls[i]? = some q ∧ q' = f (q, i) := by
+  simp only [List.mem_map]
+  constructor
+  · rintro ⟨⟨q, i⟩, hm, rfl⟩
+    exact ⟨q, i, (List.mem_zipIdx_iff_getElem?.mp hm), rfl⟩
+  · rintro ⟨q, i, hq, rfl⟩
+    exact ⟨(q, i), List.mem_zipIdx_iff_getElem?.mpr hq, rfl⟩
+
+/-- rewriting records without touching record type, identifier and references keeps the reference graph closed -/
+theorem closed_zipIdx_map (st : St) (f : Rec × Nat → Rec)
+    (hf : ∀ p, (f p).rt = p.1.rt ∧ (f p).name = p.1.name ∧ (f p).segRefs = p.1.segRefs ∧ (f p).itemRefs = p.1.itemRefs)
+    (hc : Closed st) : Closed { st with lines := st.lines.zipIdx.map f } := by
+  have hext : Ext st { st with lines := st.lines.zipIdx.map f } := by
+    constructor
+    · intro n h
+      rw [segOK_iff] at h ⊢
+      obtain ⟨q, hq, hrt, hn⟩ := h
+      obtain ⟨i, hi, rfl⟩ := List.getElem_of_mem hq
+      refine ⟨f (st.lines[i], i), (mem_zipIdx_recmap _ _ _).mpr ⟨_, i, List.getElem?_eq_getElem hi, rfl⟩, ?_, ?_⟩
+      · rw [(hf _).1]; exact hrt
+      · rw [(hf _).2.1]; exact hn
+    · intro n h
+      rcases h with h | h
+      · exact Or.inl h
+      · right
+        rw [hasName_iff'] at h ⊢
+        obtain ⟨q, hq, hn⟩ := h
+        obtain ⟨i, hi, rfl⟩ := List.getElem_of_mem hq
+        exact ⟨f (st.lines[i], i), (mem_zipIdx_recmap _ _ _).mpr ⟨_, i, List.getElem?_eq_getElem hi, rfl⟩, by rw [(hf _).2.1]; exact hn⟩
+  intro q' hq'
+  obtain ⟨q, i, hq, rfl⟩ := (mem_zipIdx_recmap _ _ _).mp hq'
+  have hqm : q ∈ st.lines := List.mem_of_getElem? hq
+  have := (hc q hqm).mono hext
+  refine ⟨?_, ?_⟩
+  · intro n hn; rw [(hf _).2.2.1] at hn; exact this.1 n hn
+  · intro n hn; rw [(hf _).2.2.2] at hn; exact this.2 n hn
+
+theorem resetAll_closed (st : St) (hc : Closed st) : Closed (resetAll st) := by
+  unfold resetAll
+  apply closed_zipIdx_map st _ _ hc
+  intro p
+  obtain ⟨h1, h2, h3⟩ := resetPlaceholder_refs st.lines p
+  exact ⟨h1, C09.resetPlaceholder_name st.lines p, h2, h3⟩
+
+/-- **removal keeps the reference graph closed**: whatever refers to a removed line is removed with it
+    (or, for a gap listed in a set, the mention is dropped) -/
+theorem rmIdx_closed (st : St) (seed : List Nat) (hc : Closed st) : Closed (rmIdx st seed) :=
+  resetAll_closed _ (rmCore_closed st seed hc)
 
 theorem rm_closed (st st' : St) (n : String) (hc : Closed st) (he : rm st n = .ok st') : Closed st' := by
   unfold rm at he
